@@ -91,6 +91,7 @@ LAYERS = [
     (123, 2, [("a", 6), ("g", 8)], [None, "z"]),
     (191, 2, [("c", 6), ("e", 8)], [None, "z"]),
     (187, 2, [("a", 42), ("h", 16)], [None, "z"]),
+    (156, 2, [("a", 5), ("b", 7)], ["z", "z"]),          # polar layer (buckled hBN type): the height in the cell is free
 ]
 
 
@@ -133,13 +134,21 @@ def h11b(layer_idx, i_np, variant, min_thickness_sym=True):
     sg, k_std, occ, normal_params = LAYERS[layer_idx]
 
     def fn(e):
-        ds = S.make_dataset(e, sg, occ)
-        # thin slab: the coordinate along the normal is a small parameter (vacuum >= 3 x thickness in the analysed cell)
-        for prm, which in zip(ds["_params"], normal_params):
-            if which is not None:
-                v = prm["xyz".index(which)]
-                if isinstance(v, SReal) and not v.is_const():
-                    e.assume(v.rel(lambda a, b: a <= b, F(1, 8)))
+        sup = e.pick([False, "interleaved"]) if len({l for l, _ in occ}) > 1 else False
+        ds = S.make_dataset(e, sg, occ, orig_supercell=sup)
+        # thin slab: the atoms span at most 1/8 of the standardized cell along the normal (vacuum >= 3 x thickness in the
+        # analysed cell).  Where the symmetry pins an orbit to height 0 the free heights are small parameters; in a polar
+        # layer (every height free) the slab may sit at any height h .. h + 1/8 of the cell.
+        free = [prm["xyz".index(which)] for prm, which in zip(ds["_params"], normal_params) if which is not None]
+        free = [v for v in free if isinstance(v, SReal) and not v.is_const()]
+        if all(which is not None for which in normal_params):
+            for v1 in free:
+                for v2 in free:
+                    if v1 is not v2:
+                        e.assume((v1 - v2).rel(lambda a, b: a <= b, F(1, 8)))
+        else:
+            for v in free:
+                e.assume(v.rel(lambda a, b: a <= b, F(1, 8)))
         lat = layer_lattice(sg, k_std)
         if any(isinstance(v, str) for row in lat for v in row):
             s3 = SReal.sym("sqrt_3_1")
@@ -154,9 +163,11 @@ def h11b(layer_idx, i_np, variant, min_thickness_sym=True):
         pbc = [True, True, True]
         pbc[i_np] = False
         n = len(ds.std_types)
-        # the original system: any structure with this periodicity (the dataset is spglib's answer for it by contract)
+        # the original system: any structure with this periodicity (the dataset is spglib's answer for it by contract); with
+        # `sup` it has two atoms per standardized atom (an in-plane supercell, the copies listed next to each other)
         ocell = [[3, 0, 0], [0, 4, 0], [0, 0, 5]]
-        osys = StubAtoms(numbers=np.array(ds.std_types), scaled_positions=const_array(np.full((n, 3), 0.25)), cell=const_array(ocell), pbc=pbc)
+        n_o = len(ds["orig_types"])
+        osys = StubAtoms(numbers=np.array(ds["orig_types"]), scaled_positions=const_array(np.full((n_o, 3), 0.25)), cell=const_array(ocell), pbc=pbc)
         ses = S.Session([ds])
         ses.systems = [osys]
         ses.table = {id(osys): ds}
@@ -164,12 +175,18 @@ def h11b(layer_idx, i_np, variant, min_thickness_sym=True):
 
         def com_contract(system):
             """periodic centre of mass: along the layer normal it lies within a quarter cell of every atom (the atoms span less
-            than a quarter of the analysed cell); the other components are irrelevant to the caller"""
+            than a quarter of the analysed cell) and between the lowest and the highest atom; the other components are
+            irrelevant to the caller"""
             f = system.get_scaled_positions(wrap=True)
             m = e.real("com_normal", lo=0, hi=1, hi_strict=True)
+            above, below = [], []
             for i in range(len(f)):
                 d = f[i][w_log["k"]] - m
                 e.assume(z3.Or(*[z3.And((d - kk).z3() <= z3.RealVal("1/4"), (d - kk).z3() >= z3.RealVal("-1/4")) for kk in (-1, 0, 1)]))
+                above.append(z3.Or(*[z3.And((d - kk).z3() <= z3.RealVal("1/4"), (d - kk).z3() >= 0) for kk in (-1, 0, 1)]))
+                below.append(z3.Or(*[z3.And((d - kk).z3() <= 0, (d - kk).z3() >= z3.RealVal("-1/4")) for kk in (-1, 0, 1)]))
+            # ... and inside the arc the atoms span (a circular mean of points on less than a half circle lies between them)
+            e.assume(z3.And(z3.Or(*above), z3.Or(*below)))
             cm = np.array([SReal.const(F(1, 3)), SReal.const(F(1, 5)), SReal.const(F(1, 7))], dtype=object)
             cm[w_log["k"]] = m
             w_log["f"] = f
@@ -187,9 +204,9 @@ def h11b(layer_idx, i_np, variant, min_thickness_sym=True):
 
         def cex(env):
             msgs = conc_layer(sg, k_std, occ, [[float(S.concrete(np.array([x], dtype=object), env)[0]) if isinstance(x, SReal) else float(x) for x in p] for p in ds["_params"]],
-                              i_np, variant, float(S.concrete(np.array([mt], dtype=object), env)[0]))
+                              i_np, variant, float(S.concrete(np.array([mt], dtype=object), env)[0]), sup)
             return {"key": f"H11b:{cex.label}", "what": f"layer in space group {sg} (normal = std axis {k_std}), original non-periodic axis {i_np}, transformation variant {variant}: " + "; ".join(msgs[:3]),
-                    "replay": {"kind": "layer", "layer": layer_idx, "i_np": i_np, "variant": variant, "min_2d_thickness": float(S.concrete(np.array([mt], dtype=object), env)[0]),
+                    "replay": {"kind": "layer", "layer": layer_idx, "i_np": i_np, "variant": variant, "min_2d_thickness": float(S.concrete(np.array([mt], dtype=object), env)[0]), "supercell": sup,
                                "params": [[float(S.concrete(np.array([x], dtype=object), env)[0]) if isinstance(x, SReal) else float(x) for x in p] for p in ds["_params"]]},
                     "reproduced": bool(msgs)}
 
@@ -212,6 +229,9 @@ def h11b(layer_idx, i_np, variant, min_thickness_sym=True):
         e.post("in-plane vectors are the standardized ones", same, mk("in-plane-vectors"))
         nn = len(conv)
         e.post("same atoms", nn == n and list(conv.get_atomic_numbers()) == list(ds.std_types), mk("atoms"))
+        want_l = sorted((S.image_letter(sg, l0, key) if key != S.IDENTITY_KEY else l0, Z) for l0, Z in occ for _ in S.orbit(sg, l0))
+        e.post("per-atom Wyckoff letters are those of the returned atoms (independent assignment)",
+               len(letters) == nn and sorted((str(l_), int(z_)) for l_, z_ in zip(letters, conv.get_atomic_numbers())) == want_l, mk("letters"))
         f2 = conv.get_scaled_positions(wrap=False)
         e.post("all atoms inside the cell", z3.And(*[z3.And(zbool(f2[i][c] >= 0), zbool(f2[i][c] <= 1)) for i in range(nn) for c in range(3)]), mk("inside"))
         # thickness = max(atomic extent, min_2d_thickness); extent from the standardized coordinates after the chosen transformation
@@ -247,10 +267,10 @@ def h11b(layer_idx, i_np, variant, min_thickness_sym=True):
     return fn
 
 
-def conc_layer(sg, k_std, occ, vals, i_np, variant, mt):
+def conc_layer(sg, k_std, occ, vals, i_np, variant, mt, sup=False):
     """real analyzer / numpy / ASE, real periodic centre of mass; spglib's dataset scripted (contract dataset)"""
     from ase import Atoms
-    ds = S.concrete_dataset(sg, occ, vals)
+    ds = S.concrete_dataset(sg, occ, vals, orig_supercell=sup)
     lat = layer_lattice(sg, k_std)
     lat = np.array([[(1.5 * 3 ** 0.5 if v == "s3" else float(v)) for v in row] for row in lat], dtype=float)
     ds["std_lattice"] = lat
@@ -258,16 +278,21 @@ def conc_layer(sg, k_std, occ, vals, i_np, variant, mt):
     pbc = [True, True, True]
     pbc[i_np] = False
     n = len(ds.std_types)
-    osys = Atoms(numbers=ds.std_types, scaled_positions=np.full((n, 3), 0.25), cell=np.diag([3.0, 4.0, 5.0]), pbc=pbc)
+    osys = Atoms(numbers=ds["orig_types"], scaled_positions=np.full((len(ds["orig_types"]), 3), 0.25), cell=np.diag([3.0, 4.0, 5.0]), pbc=pbc)
     msgs = []
     with patched(SA, segfault_protect=lambda fn, d, tol: ds):
         try:
             an = SA.SymmetryAnalyzer(osys, min_2d_thickness=mt)
             conv = an.get_conventional_system()
+            letters = [str(x) for x in an.get_wyckoff_letters_conventional()]
         except Exception as ex:
             return [f"raised {type(ex).__name__}: {ex}"]
     if list(conv.get_pbc()) != [True, True, False]:
         msgs.append(f"pbc = {list(conv.get_pbc())}, expected [True, True, False]")
+    key_ = S.tkey(np.asarray(an._best_transform["transformation"]))
+    want_l = sorted((S.image_letter(sg, l0, key_) if key_ != S.IDENTITY_KEY else l0, Z) for l0, Z in occ for _ in S.orbit(sg, l0))
+    if sorted(zip(letters, [int(z) for z in conv.get_atomic_numbers()])) != want_l:
+        msgs.append(f"per-atom Wyckoff letters {''.join(letters)} are not those of the returned atoms")
     cell = np.array(conv.get_cell())
     inpl = [k for k in range(3) if k != k_std]
     if np.linalg.norm(np.cross(cell[2], lat[k_std])) > 1e-6 or np.dot(cell[2], lat[k_std]) <= 0:
@@ -358,7 +383,7 @@ def main(tier, seed, only=None):
     for f in (SA.SymmetryAnalyzer.set_system, SA.SymmetryAnalyzer.get_conventional_system, SA.SymmetryAnalyzer.get_material_id, G.get_thickness, G.swap_basis, G.get_minimized_cell):
         rep.function(f)
     jobs = [("H11a", f"H11a:np{i}:n{n}", h11a(i, n)) for i in range(3) for n in ((1, 2) if tier == "quick" else (1, 2, 3))]
-    layers = range(len(LAYERS)) if tier == "thorough" else [0, 2, 3, 4, 5, 6, 7]
+    layers = range(len(LAYERS)) if tier == "thorough" else [0, 2, 3, 4, 5, 6, 7, 9]
     variants = range(4) if tier == "quick" else range(6)
     for li in layers:
         for i_np in range(3):
@@ -374,9 +399,9 @@ def main(tier, seed, only=None):
     if not only:
         rep.require_reached("H11a", "H11b", "H11c")
     rep.bounds = {"H11a": "1-2 (3) atoms anywhere, each axis non-periodic in turn, symbolic length of the non-periodic vector",
-                  "H11b": f"{len(list(layers))} layer settings (space groups 1, 6, 47 with the normal along a, b or c, 123, 191, 187), 3 original non-periodic axes x {len(list(variants))} transformation-matrix variants (permutations, sign, in-plane shear), symbolic Wyckoff parameters (normal coordinate <= 1/8) and min_2d_thickness",
+                  "H11b": f"{len(list(layers))} layer settings (space groups 1, 6, 47 with the normal along a, b or c, 123, 191, 187), 3 original non-periodic axes x {len(list(variants))} transformation-matrix variants (permutations, sign, in-plane shear), symbolic Wyckoff parameters (heights within 1/8 of the cell: <= 1/8 where an orbit is pinned to height 0, a window at any height for the polar layers of groups 1 and 156) and min_2d_thickness; layers with two letters also analysed from an in-plane supercell whose per-atom arrays list the copies of an atom next to each other",
                   "H11c": "2D vs 3D periodicity of the same dataset"}
-    rep.stubs = ["SpglibContract dataset incl. transformation_matrix with exactly one row carrying the non-periodic axis", "get_center_of_mass by contract: the component along the normal lies within a quarter cell of every atom",
+    rep.stubs = ["SpglibContract dataset incl. transformation_matrix with exactly one row carrying the non-periodic axis", "get_center_of_mass by contract: the component along the normal lies within a quarter cell of every atom and between the lowest and the highest atom",
                  "hashlib recorder (H11c)", "StubAtoms / StubSystem"]
     rep.assumptions = ["the analysed cell has vacuum >= 3 x thickness (established by H11a), so the atoms span < 1/4 of the standardized cell along the normal",
                        "spglib orients the standardized cell with the layer normal along the cartesian axis of the same index"]
@@ -392,7 +417,7 @@ def _run(name):
 def replay(d):
     if d["kind"] == "layer":
         sg, k_std, occ, _ = LAYERS[d["layer"]]
-        msgs = conc_layer(sg, k_std, occ, d["params"], d["i_np"], d["variant"], d["min_2d_thickness"])
+        msgs = conc_layer(sg, k_std, occ, d["params"], d["i_np"], d["variant"], d["min_2d_thickness"], d.get("supercell", False))
         return bool(msgs), "; ".join(msgs[:4]) or "ok"
     if d["kind"] == "ids":
         ids = next(_id_sessions(True))
